@@ -7,6 +7,7 @@
  b  the inverse transforms are the forward transform with the opposite sign followed by division by the number of elements
     (inverse_fourier, inverse_fourier_1d): the scale that makes inverse(forward(c)) = c
 """
+import math
 import re
 
 from engine.algebra import LocalDefs
@@ -295,6 +296,359 @@ def rule_d_sign_passed_on(ctx, fns):
     return n
 
 
+# ---------------------------------------------------------------------------------------------------------------------------------
+# e  every transform accepts every length the property supports (powers of two, 2..1024), and the real-data inverse returns an
+#    array of the length the forward transform was given.  The guards `if (cond) error(...)` of the one-dimensional transforms are
+#    pure integer functions of the array length; they are evaluated (constant folding over the finite list of lengths, following
+#    resize() and the calls between the transforms) - nothing is executed.
+LENGTHS = [2 ** k for k in range(1, 11)]
+
+
+class _Unknown(Exception):
+    pass
+
+
+class _Rejected(Exception):
+    def __init__(self, f, node):
+        self.f, self.node = f, node
+
+
+def _is_int_type(t):
+    t = (t or "").replace("const ", "").strip()
+    return t in ("int", "unsigned int", "unsigned", "long", "unsigned long", "std::size_t", "size_t", "short", "bool", "stir::VectorWithOffset::size_type")
+
+
+class _Lengths:
+    """abstract state: values of arithmetic locals, lengths of one-dimensional array locals/parameters"""
+
+    def __init__(self, fns, trace):
+        self.byqn = {}
+        for f in fns:
+            if f.body is not None and not f.is_dependent:
+                self.byqn.setdefault(f.qn, []).append(f)
+        self.trace = trace  # (function qn, guard ordinal) -> [(length seen, rejected?)]
+        self.depth = 0
+
+    def ev(self, n, env, lens):
+        n = n.strip()
+        k = n.k
+        if k in ("IntegerLiteral", "FloatingLiteral", "CXXBoolLiteralExpr"):
+            return n.get("v")
+        if k == "ParenExpr" or k == "ExprWithCleanups" or k == "MaterializeTemporaryExpr":
+            return self.ev(n.c[0], env, lens)
+        if k in ("CXXStaticCastExpr", "CXXFunctionalCastExpr", "CStyleCastExpr"):
+            v = self.ev(n.c[-1], env, lens)
+            return int(v) if _is_int_type(n.type) else v
+        if k == "DeclRefExpr":
+            d = n.get("d")
+            if d in env:
+                return env[d]
+            raise _Unknown("value of `%s`" % key(n, True))
+        if k == "UnaryOperator":
+            v = self.ev(n.c[0], env, lens)
+            if n.op == "-":
+                return -v
+            if n.op == "!":
+                return not v
+            if n.op == "+":
+                return v
+            raise _Unknown("operator " + str(n.op))
+        if k == "BinaryOperator":
+            op = n.op
+            if op == "&&":
+                return bool(self.ev(n.c[0], env, lens)) and bool(self.ev(n.c[1], env, lens))
+            if op == "||":
+                return bool(self.ev(n.c[0], env, lens)) or bool(self.ev(n.c[1], env, lens))
+            a, b = self.ev(n.c[0], env, lens), self.ev(n.c[1], env, lens)
+            both_int = isinstance(a, int) and isinstance(b, int)
+            if op == "+":
+                return a + b
+            if op == "-":
+                return a - b
+            if op == "*":
+                return a * b
+            if op == "/":
+                if b == 0:
+                    raise _Unknown("division by zero")
+                return int(a / b) if both_int else a / b
+            if op == "%":
+                if not both_int or b == 0:
+                    raise _Unknown("remainder")
+                return int(math.fmod(a, b))
+            if op == "<<" and both_int:
+                return a << b
+            if op == ">>" and both_int:
+                return a >> b
+            if op in ("==", "!=", "<", "<=", ">", ">="):
+                return {"==": a == b, "!=": a != b, "<": a < b, "<=": a <= b, ">": a > b, ">=": a >= b}[op]
+            raise _Unknown("operator " + str(op))
+        if k == "CXXMemberCallExpr":
+            short = (n.callee or "").split("::")[-1]
+            o = n.call_object().strip() if n.call_object() is not None else None
+            if short in ("size", "get_length") and o is not None and o.k == "DeclRefExpr" and ("v%d" % o.get("d")) in lens:
+                return lens["v%d" % o.get("d")]
+            if short == "get_min_index" and o is not None and o.k == "DeclRefExpr" and ("v%d" % o.get("d")) in lens:
+                return 0
+            raise _Unknown("`%s`" % key(n, True))
+        if k == "CallExpr":
+            short = (n.callee or "").split("::")[-1]
+            args = [self.ev(a, env, lens) for a in n.call_args()]
+            try:
+                if short in ("round", "lround") and len(args) == 1:
+                    return float(math.floor(abs(args[0]) + 0.5) * (1 if args[0] >= 0 else -1))
+                if short == "log" and len(args) == 1:
+                    return math.log(args[0])
+                if short == "log2" and len(args) == 1:
+                    return math.log2(args[0])
+                if short == "pow" and len(args) == 2:
+                    return math.pow(args[0], args[1])
+                if short == "abs" and len(args) == 1:
+                    return abs(args[0])
+            except (ValueError, OverflowError):
+                raise _Unknown("`%s` outside its domain" % short)
+            raise _Unknown("call of `%s`" % short)
+        raise _Unknown("expression kind %s" % k)
+
+    def array_root(self, a):
+        a = a.strip()
+        return "v%d" % a.get("d") if a.k == "DeclRefExpr" and a.get("dk") in ("local", "param") else None
+
+    def call(self, f, length):
+        """interpret f with its first (array) parameter of the given length; returns (final length of that parameter, length returned)"""
+        if self.depth > 6:
+            raise _Unknown("call depth")
+        self.depth += 1
+        try:
+            env, lens = {}, {}
+            if f.params:
+                lens["v%d" % f.params[0]["d"]] = length
+            self.guard_no = 0
+            ret = self.block(f, f.body, env, lens)
+            return lens.get("v%d" % f.params[0]["d"]) if f.params else None, ret
+        finally:
+            self.depth -= 1
+
+    def has_error(self, n):
+        return any((c.callee or "") == "stir::error" for c in n.calls())
+
+    def block(self, f, st, env, lens):
+        """returns the length of the returned array if a return statement was reached, else None; raises _Rejected at error()"""
+        stmts = st.c if st.k == "CompoundStmt" else [st]
+        for s in stmts:
+            r = self.stmt(f, s, env, lens)
+            if r is not None:
+                return r
+        return None
+
+    def stmt(self, f, s, env, lens):
+        k = s.k
+        if k == "CompoundStmt":
+            return self.block(f, s, env, lens)
+        if k == "DeclStmt":
+            for v in s.c:
+                if v.k != "VarDecl":
+                    continue
+                init = v.c[0] if v.c else None
+                t = (v.get("t") or v.type or "")
+                if "Array<" in t or "VectorWithOffset<" in t:
+                    root = "v%d" % v.get("d")
+                    lens.pop(root, None)
+                    if init is None:
+                        lens[root] = 0
+                        continue
+                    i2 = init.strip()
+                    if i2.k in ("CXXConstructExpr", "CXXTemporaryObjectExpr"):
+                        a = [x for x in i2.c if not x.strip().get("defarg")]
+                        if not a:
+                            lens[root] = 0
+                        elif len(a) == 1:
+                            if a[0].strip().k in ("CXXConstructExpr", "CXXTemporaryObjectExpr") and "IndexRange" in (a[0].strip().callee or "") and len(a[0].strip().c) == 1:
+                                a = [a[0].strip().c[0]]
+                            src = self.array_root(a[0])
+                            if src is not None and src in lens:
+                                lens[root] = lens[src]
+                            else:
+                                try:
+                                    val = self.ev(a[0], env, lens)
+                                    if isinstance(val, int):
+                                        lens[root] = val
+                                except _Unknown:
+                                    pass
+                    elif i2.is_call() and (i2.callee or "") in self.byqn:
+                        src = self.array_root(i2.call_args()[0]) if i2.call_args() else None
+                        if src is not None and src in lens:
+                            g = self.pick(i2)
+                            after, ret = self.call(g, lens[src])
+                            if g.params and "&" in (g.params[0].get("t") or "") and "const" not in (g.params[0].get("t") or "") and after is not None:
+                                lens[src] = after
+                            if ret is not None:
+                                lens[root] = ret
+                    continue
+                if init is None:
+                    continue
+                try:
+                    val = self.ev(init, env, lens)
+                    env[v.get("d")] = int(val) if _is_int_type(t) and not isinstance(val, bool) else val
+                except _Unknown:
+                    env.pop(v.get("d"), None)
+            return None
+        if k == "IfStmt":
+            cond = s.c[0]
+            guards_error = self.has_error(s)
+            try:
+                c = bool(self.ev(cond, env, lens))
+            except _Unknown as u:
+                if guards_error:
+                    raise _Unknown("guard at line %d: %s" % (s.line, u))
+                # an undecided branch without error(): both branches must leave lengths alone
+                if any((x.callee or "").split("::")[-1] in ("resize", "grow", "reserve") or (x.callee or "") in self.byqn for x in s.calls()) or s.find(lambda m: m.k == "ReturnStmt"):
+                    raise _Unknown("branch at line %d: %s" % (s.line, u))
+                return None
+            if guards_error:
+                self.guard_no += 1
+                gid = (f.qn, s.line)
+                self.trace.setdefault(gid, {"f": f, "node": s, "seen": [], "rejected": []})
+                self.trace[gid]["seen"].append(lens.get("v%d" % f.params[0]["d"]) if f.params else None)
+            if c:
+                if len(s.c) > 1:
+                    th = s.c[1]
+                    if guards_error and self.has_error(th):
+                        self.trace[gid]["rejected"].append(lens.get("v%d" % f.params[0]["d"]) if f.params else None)
+                        raise _Rejected(f, s)
+                    return self.stmt(f, th, env, lens)
+            elif len(s.c) > 2:
+                if guards_error and self.has_error(s.c[2]) and not self.has_error(s.c[1]):
+                    self.trace[gid]["rejected"].append(lens.get("v%d" % f.params[0]["d"]) if f.params else None)
+                    raise _Rejected(f, s)
+                return self.stmt(f, s.c[2], env, lens)
+            return None
+        if k == "ReturnStmt":
+            if not s.c:
+                return -1
+            e = s.c[0].strip()
+            if e.k == "CXXConstructExpr" and len(e.c) == 1 and self.array_root(e.c[0]) is not None:
+                e = e.c[0].strip()  # copy/move construction of the returned local
+            root = self.array_root(e)
+            if root is not None and root in lens:
+                return lens[root]
+            if e.k in ("CXXConstructExpr", "CXXTemporaryObjectExpr") and not [x for x in e.c if not x.strip().get("defarg")]:
+                return 0
+            if e.is_call() and (e.callee or "") in self.byqn and e.call_args():
+                src = self.array_root(e.call_args()[0])
+                if src is not None and src in lens:
+                    after, ret = self.call(self.pick(e), lens[src])
+                    return ret if ret is not None else -1
+            return -1
+        if k in ("ForStmt", "WhileStmt", "DoStmt", "CXXForRangeStmt"):
+            if self.has_error(s) or any((x.callee or "").split("::")[-1] in ("resize", "grow") for x in s.calls()):
+                raise _Unknown("loop at line %d changes lengths or reports errors" % s.line)
+            return None
+        # expression statements: resize, calls between the transforms, error()
+        e = s.strip()
+        if e.is_call():
+            short = (e.callee or "").split("::")[-1]
+            if (e.callee or "") == "stir::error":
+                raise _Rejected(f, s)
+            if e.k == "CXXMemberCallExpr" and short in ("resize", "grow") and e.call_object() is not None:
+                root = self.array_root(e.call_object())
+                a = e.call_args()
+                if len(a) == 1 and a[0].strip().k in ("CXXConstructExpr", "CXXTemporaryObjectExpr", "MaterializeTemporaryExpr", "CXXBindTemporaryExpr"):
+                    # resize(IndexRange<1>(n)) / resize(IndexRange<1>(min, max)), also when the conversion is implicit
+                    x = a[0].strip()
+                    while x.k in ("MaterializeTemporaryExpr", "CXXBindTemporaryExpr") and x.c:
+                        x = x.c[0].strip()
+                    a = [y for y in x.c if not y.strip().get("defarg")]
+                if root is not None:
+                    lens.pop(root, None)
+                    if len(a) == 1:
+                        val = self.ev(a[0], env, lens)
+                        lens[root] = int(val)
+                    elif len(a) == 2:
+                        lo, hi = self.ev(a[0], env, lens), self.ev(a[1], env, lens)
+                        lens[root] = int(hi) - int(lo) + 1
+                return None
+            if (e.callee or "") in self.byqn and e.call_args():
+                src = self.array_root(e.call_args()[0])
+                if src is not None and src in lens:
+                    g = self.pick(e)
+                    after, _ret = self.call(g, lens[src])
+                    if after is not None:
+                        lens[src] = after
+                return None
+        if e.k == "CompoundAssignOperator" or (e.k == "BinaryOperator" and e.op == "="):
+            lhs = e.c[0].strip()
+            if lhs.k == "DeclRefExpr" and lhs.get("d") in env:
+                try:
+                    rhs = self.ev(e.c[1], env, lens)
+                    cur = env[lhs.get("d")]
+                    op = e.op.rstrip("=") if e.k == "CompoundAssignOperator" else None
+                    env[lhs.get("d")] = rhs if op is None else {"+": cur + rhs, "-": cur - rhs, "*": cur * rhs}.get(op)
+                    if env[lhs.get("d")] is None:
+                        env.pop(lhs.get("d"))
+                except _Unknown:
+                    env.pop(lhs.get("d"), None)
+        return None
+
+    def pick(self, call):
+        c = self.byqn[call.callee]
+        a = call.call_args()
+        at = (a[0].strip().type or "").replace("const ", "").replace("&", "").strip() if a else ""
+        for g in c:
+            pt = (g.params[0].get("t") or "").replace("const ", "").replace("&", "").strip() if g.params else ""
+            if pt and at and (pt == at or pt.endswith(at) or at.endswith(pt)):
+                return g
+        return c[0]
+
+
+def rule_e_supported_lengths(ctx, fns):
+    RULE = "C19.e-transforms-accept-supported-lengths"
+    trace = {}
+    it = _Lengths(fns, trace)
+
+    def one_d(short):
+        c = [f for f in fns if f.short == short and f.body is not None and not f.is_dependent and f.params and re.search(r"Array<1, *(std::complex<float>|float)>", f.params[0].get("t") or "")]
+        return c[0] if c else None
+
+    fwd_r, inv_r, fwd_c, inv_c = one_d("fourier_1d_for_real_data"), one_d("inverse_fourier_1d_for_real_data_corrupting_input"), one_d("fourier"), one_d("inverse_fourier")
+    if None in (fwd_r, inv_r, fwd_c, inv_c):
+        ctx.fail_broken("C19.e: one-dimensional transforms (fourier, inverse_fourier, fourier_1d_for_real_data, inverse_fourier_1d_for_real_data_corrupting_input) not all found")
+        return 0
+    round_trip_bad, unknown = [], []
+    for L in LENGTHS:
+        for f in (fwd_c, inv_c):
+            try:
+                after, _ = it.call(f, L)
+                if after != L:
+                    round_trip_bad.append((f.short, L, after))
+            except _Rejected:
+                pass
+            except _Unknown as u:
+                unknown.append("%s: %s" % (f.short, u))
+        try:
+            _after, lc = it.call(fwd_r, L)
+            if lc is None or lc < 0:
+                unknown.append("fourier_1d_for_real_data: length of the result not found")
+                continue
+            _after, back = it.call(inv_r, lc)
+            if back != L:
+                round_trip_bad.append(("inverse of the real-data transform", L, back))
+        except _Rejected:
+            pass
+        except _Unknown as u:
+            unknown.append("real-data transforms: %s" % u)
+    for u in sorted(set(unknown)):
+        ctx.unrec("stir::fourier", "C19.e cannot evaluate %s" % u)
+    n = 0
+    for (qn, line), t in sorted(trace.items()):
+        rej = sorted(set(x for x in t["rejected"] if x is not None))
+        ords = sorted(l for (q, l) in trace if q == qn)
+        ctx.ob(RULE, qn, "guard#%d" % (ords.index(line) + 1), not rej, t["node"].where(), ("`%s` lets every length through that arises for data of the lengths 2, 4, .. 1024 (seen here: %s)" % (key(t["node"].c[0].strip(), True), sorted(set(x for x in t["seen"] if x is not None))[:12])) if not rej else ("`%s` refuses array length(s) %s, which arise for data of a supported length (a power of two in 2..1024): the transform reports an error instead of a result" % (key(t["node"].c[0].strip(), True), rej)))
+        n += 1
+    ok = not round_trip_bad
+    ctx.ob(RULE, "stir::inverse_fourier_1d_for_real_data_corrupting_input", "length-of-the-round-trip", ok, inv_r.where(), "inverse(forward(v)) has the length of v for all supported lengths (forward gives L/2+1 complex numbers)" if ok else "lengths do not come back: %s" % round_trip_bad[:6])
+    return n + 1
+
+
 def run(ctx):
     ctx.explanation = (
         "Decides two structural clauses: (a) in the direct-convolution filters (1D, 2D, 3D) the loop of every kernel index runs exactly over "
@@ -318,6 +672,8 @@ def run(ctx):
     rule_b(ctx, us[3].functions)
     rule_c_padded_route(ctx, us[4].functions)
     rule_d_sign_passed_on(ctx, us[5].functions)
+    rule_e_supported_lengths(ctx, us[5].functions)
+    ctx.require_count("C19.e-transforms-accept-supported-lengths", 4)
     ctx.require_count("C19.d-sign-passed-on", 14)
     ctx.require_count("C19.c-padded-route-through-modulo-map", 3)
     ctx.require_count("C19.a-convolution-index-bounds", 6)
